@@ -224,7 +224,8 @@ def run(c):
               'value/callable x environment) and 24 consumer cases (8 documented settings x given as typed code value / '
               'text in code / DEEP_ environment variable), each run in a fresh interpreter against the real consumer '
               '(poll timer, channel creation, auth metadata, app-frame test, deep.start APP_ROOT), and 448 path cases '
-              'against is_app_frame; non-trivial = an environment or non-default form / a non-empty prefix list')
+              'against is_app_frame, each in three renderings (prefixes closed by a separator / open, one segment text '
+              'beginning like the other / given as pathlib.Path); non-trivial = an environment or non-default form / a non-empty prefix list')
     c.assumptions = ['grpc.insecure_channel / secure_channel are replaced by recorders in the probe interpreter']
     r = c.mc('ConfigResolve', dict(invariants=INVS, deadlock=False), label='four tables', dump=True, coverage=False)
     states = [to_json(s) for s in r.graph.states.values()]
